@@ -1,7 +1,7 @@
 (* Extraction of the C09 container models for the correspondence run (ExtrOcamlBasic only). *)
 From Coq Require Import Extraction ExtrOcamlBasic ZArith List.
 From ScV Require Import Base.CInt Gen.HashResize Gen.AvlBalance C09.HashModel C09.PoolModel C09.ListModel.
-From ScV Require Import C09.HashArrayModel C09.RecycleModel C09.KeyValueModel C09.AvlModel C09.AvlSeqModel C09.SharedModel.
+From ScV Require Import C09.HashArrayModel C09.RecycleModel C09.KeyValueModel C09.AvlModel C09.AvlSeqModel C09.SharedModel C09.AvlRelinkModel.
 Extraction "c09_model.ml"
   hash_new step elements lookup hcount slots hchecks hactions hlinks nslots
   mstamp_init mempool_new mempool_alloc mempool_free pstate_new pstep cget mp_count ps_pool ps_live ps_mem
@@ -11,4 +11,5 @@ Extraction "c09_model.ml"
   ra_init rstep ra_a ra_f ra_count
   kv_new kstep kv_hash kv_pool
   avl_new vstep a_top a_thread cnt inorder qstep
-  sh_new sh_step sh_pool.
+  sh_new sh_step sh_pool
+  estep xstep.
